@@ -705,10 +705,11 @@ def classify(e):
 
 
 def impl_query(ps, text, kind, query_all):
-    """a query that exceeds 20 s is repeated once with 90 s before it is called a hang"""
-    got = impl_query1(ps, text, kind, query_all, 20.0)
+    """a query that exceeds 10 s of CPU time is repeated once with 40 s before it is called a hang
+    (the slowest generated queries need about 2 s, nearly all of it in pyparsing)"""
+    got = impl_query1(ps, text, kind, query_all, 10.0)
     if got[0] == "hang":
-        got = impl_query1(ps, text, kind, query_all, 90.0)
+        got = impl_query1(ps, text, kind, query_all, 40.0)
     return got
 
 
@@ -837,7 +838,8 @@ def check_case(G, svals, sem, impl, q, extra_mode, want_all, full=True):
         rec["modes"][mode] = got
         want_err = sem.expected_error(steps, sets, mode)
         if got[0] == "hang":
-            bad("query %r did not terminate within 90 s of CPU time on a graph of %d packages" % (q["text"], G["n"]), "query-hang")
+            bad("query %r did not terminate within 40 s of CPU time on a graph of %d packages" % (q["text"], G["n"]), "query-hang")
+            return rec, viol
         elif got[0] == "internal":
             bad("internal exception from queryTreePath(%r): %s" % (q["text"], got[1]), "internal-exception")
         elif got == ["err", "recursion"]:
